@@ -235,3 +235,153 @@ def delete_unit(prop):
                  ('heap', sym.ListC(STR), 'arr'), ('heap', sym.ListC(STR), 'len')], name='load_loop')},
              local_types=DELETE_LOCALS, prop=prop)
     return u
+
+
+# ------------------------------------------------------------------ clean
+def chunk_name(z):
+    """contract of parse_chunk_location(location).name / .tag (proved in C08.loc)"""
+    return UF('chunk_name', STR, STR)(z)
+
+
+def chunk_tag(z):
+    return UF('chunk_tag', STR, STR)(z)
+
+
+class Listing:
+    def __init__(self, nm='Lst'):
+        self.n = z3.Int(f'{nm}_n')
+        self.A = z3.Const(f'{nm}_names', z3.ArraySort(z3.IntSort(), z3.StringSort()))
+
+    def at(self, j):
+        return z3.Select(self.A, j)
+
+
+def clean_setup(b):
+    me = shared.repo_self(b)
+    L = Loaded()
+    b.L = L
+    Lst = Listing()
+    b.Lst = Lst
+    prefix = me._attrs['CHUNK_PREFIX']
+    j, j2 = z3.Ints('lj1 lj2')
+    b.assume(Lst.n >= 0)
+    # backend interface [A]: the listing returns live names that start with the prefix, each once
+    b.assume(z3.ForAll([j], z3.Implies(z3.And(0 <= j, j < Lst.n), z3.PrefixOf(z3.StringVal(prefix), Lst.at(j)))))
+    b.assume(z3.ForAll([j, j2], z3.Implies(z3.And(0 <= j, j < j2, j2 < Lst.n), Lst.at(j) != Lst.at(j2))))
+
+    def loc_model(interp, st, args, kwargs):
+        yield st, SV(STR, loc(sym.lift(args[0], BYTES).z))
+
+    def parse_chunk(interp, st, args, kwargs):
+        z = sym.lift(args[0], STR).z
+        st.emit('parse_chunk_location', location=args[0])
+        yield st, shared.make_ntup(('name', 'tag'), (SV(STR, chunk_name(z)), SV(STR, chunk_tag(z))))
+
+    def aiter(interp, st, args, kwargs):
+        st.emit('list_files', func=args[0], prefix=args[1] if len(args) > 1 else '')
+        yield st, IterSpec(Lst.n, lambda k: SV(STR, Lst.at(k)))
+
+    def backend_clean(interp, st, args, kwargs):
+        st.emit('backend_clean')
+        yield st, None
+
+    me._attrs.update({
+        '_load_snapshots': shared.load_snapshots_model(b, L),
+        '_chunk_digest_to_location': Model('loc', loc_model),
+        'parse_chunk_location': Model('parse_chunk_location', parse_chunk),
+        '_delete': delete_model(),
+        '_aiter': Model('_aiter', aiter),
+        '_clean': Model('_clean', backend_clean),
+        'backend': Obj('backend', list_files=Obj('backend.list_files')),
+    })
+    b.bind('asyncio', models.ASYNCIO)
+    b.bind('tqdm', models.tqdm_model())
+
+
+def tag_ok(view, l):
+    hx, fh = UF('hex', BYTES, STR), UF('fromhex', STR, BYTES)
+    return view.mac(fh(chunk_name(l))) == fh(chunk_tag(l))
+
+
+def clean_inv(b, me):
+    Lst = b.Lst
+
+    def inv(ctx):
+        st = ctx.st
+        td = st.heap.read(sym.SetC(STR), 'm', ctx.v('to_delete'))
+        refl = st.heap.read(sym.SetC(STR), 'm', ctx.v('referenced_locations'))
+        view = shared.PropsView(st, me.props)
+        k = ctx.k
+        j = z3.Int('cj')
+        l = z3.Const('cl', z3.StringSort())
+        sel = lambda x: z3.And(z3.Not(z3.Select(refl, x)), z3.Or(z3.Not(view.encrypted), tag_ok(view, x)))
+        return z3.And(
+            k <= Lst.n,
+            z3.ForAll([j], z3.Implies(z3.And(0 <= j, j < k, sel(Lst.at(j))), z3.Select(td, Lst.at(j)))),
+            z3.ForAll([l], z3.Implies(z3.Select(td, l), z3.And(sel(l), z3.Exists([j], z3.And(0 <= j, j < k, Lst.at(j) == l))))),
+        )
+    return inv
+
+
+def make_clean_post(prop, me_holder):
+    def post(res):
+        b = res.builder
+        L, Lst = b.L, b.Lst
+        me = me_holder['me']
+        i, j = z3.Ints('qi qj')
+        d = z3.Const('qd', z3.StringSort())
+        l = z3.Const('ql', z3.StringSort())
+        inrange = lambda ii: z3.And(0 <= ii, ii < L.n)
+        referenced = lambda x: z3.Exists([i, d], z3.And(inrange(i), z3.Select(L.chunks(i), d), loc(d) == x))
+        for p in res.paths:
+            view = shared.PropsView(p.st, me.props)
+            evs = delete_events(p)
+            dels = [e for e in evs if e['kind'] == 'delete']
+            sig = ','.join(e['label'] for e in dels) + '->' + p.kind
+            exited = [e for e in p.st.events if e.kind == 'loop_exit']
+            if not exited:
+                res.oblige(p, f'{prop}.clean.nothing_deleted_before_scan_ends[{sig}]', z3.BoolVal(not dels))
+                continue
+            # the listing that is scanned is the chunk area
+            for e in p.events('list_files'):
+                res.oblige(p.pc_at(e), f'{prop}.clean.lists_chunk_prefix', sym.lift(e.data['prefix'], STR).z == z3.StringVal(me._attrs['CHUNK_PREFIX']))
+            for e in dels:
+                pc = p.st.pc + list(e['cond'])
+                if e['label'] != '_delete_chunk' or e['var'] is None:
+                    res.oblige(p, f'{prop}.clean.unexpected_delete_site[{sig}]', z3.BoolVal(False))
+                    continue
+                x = e['var'].z
+                res.oblige(pc, f'{prop}.clean.deletes_the_selected_location[{sig}]', e['loc'] == x)
+                res.oblige(pc, f'{prop}.clean.keeps_referenced[{sig}]', z3.Not(referenced(x)))
+                res.oblige(pc, f'{prop}.clean.own_only[{sig}]', z3.Implies(view.encrypted, tag_ok(view, x)))
+                res.oblige(pc, f'{prop}.clean.confined_to_listed_chunks[{sig}]', z3.And(
+                    z3.Exists([j], z3.And(0 <= j, j < Lst.n, Lst.at(j) == x)),
+                    z3.PrefixOf(z3.StringVal(me._attrs['CHUNK_PREFIX']), x)))
+            if p.kind in ('return', 'normal'):
+                fa = [e for e in p.st.events if e.kind == 'forall']
+                sel = lambda x: z3.And(z3.Not(referenced(x)), z3.Or(z3.Not(view.encrypted), tag_ok(view, x)),
+                                       z3.Exists([j], z3.And(0 <= j, j < Lst.n, Lst.at(j) == x)))
+                if fa:
+                    f = fa[0]
+                    res.oblige(p, f'{prop}.clean.every_subpath_deletes[{sig}]', z3.BoolVal(
+                        all(any(se.kind == 'delete' for se in sp['events']) for sp in f.data['paths']) and len(fa) == 1))
+                    # exactness (C08): the set handed to the deleter is exactly the selected one
+                    res.oblige(p, f'{prop}.clean.exact[{sig}]', z3.ForAll([l], z3.Select(f.data['member'], l) == sel(l)))
+                else:
+                    # returned without deleting: nothing was selectable
+                    res.oblige(p, f'{prop}.clean.noop_only_if_nothing_selected[{sig}]', z3.ForAll([l], z3.Not(sel(l))))
+    return post
+
+
+def clean_unit(prop):
+    holder = {}
+
+    def setup(b):
+        clean_setup(b)
+        holder['me'] = b.st.lookup('self')
+        u.loops['AsyncFor#1'].inv = clean_inv(b, holder['me'])
+
+    u = Unit(f'{prop}.clean', REPO_PY, 'Repository.clean', setup, make_clean_post(prop, holder),
+             loops={'AsyncFor#1': LoopSpec(None, modifies=[('heap_at', sym.SetC(STR), 'm', ['to_delete'])], name='scan_loop')},
+             local_types={'to_delete': Set(STR)}, prop=prop)
+    return u
